@@ -10,7 +10,25 @@ import z3
 from . import xr
 
 
+def _has_quantifier(f, seen=None):
+    seen = set() if seen is None else seen
+    todo = [f]
+    while todo:
+        t = todo.pop()
+        if t.get_id() in seen:
+            continue
+        seen.add(t.get_id())
+        if z3.is_quantifier(t):
+            return True
+        todo.extend(t.children())
+    return False
+
+
 def _formulas(o, tier):
+    if tier == "qf":
+        # the quantifier-free part of the hypotheses only (sound: fewer hypotheses); settles arithmetic side conditions at once
+        # instead of letting the solver instantiate the big invariants first
+        return [h for h in o.hyps if not _has_quantifier(h)] + [z3.Not(o.goal)]
     fs = list(o.hyps)
     if not o.expect_sat:
         fs.extend((o.defs or {}).values())
@@ -79,6 +97,8 @@ def _solve(args):
             else:
                 first = [p for p in plan if p[0] == hint]
             plan = first + [p for p in plan if p not in first]
+        if not expect_sat and hint is None:
+            plan = [("qf", {}, 0.02)] + list(plan)
         for tier, cfg, share in plan:
             if smts[tier] is None:
                 continue
@@ -89,11 +109,15 @@ def _solve(args):
             s.from_string(smts[tier])
             r = s.check()
             if r == z3.unsat:
+                if tier == "qf":
+                    return "unsat", time.time() - t0, "[tier0/qf]"
                 return "unsat", time.time() - t0, "[tier%d%s]" % (tier, "" if cfg else "/default")
+            if tier == "qf":
+                continue
             if r == z3.sat and (tier == 2 or expect_sat):
                 # a model is meaningful only with the full definitions (or for reachability checks)
                 return "sat", time.time() - t0, "[tier%d]" % tier
-            last = ("unknown", "%s at tier %d" % (s.reason_unknown() if r == z3.unknown else "sat without definitions", tier))
+            last = ("unknown", "%s at tier %s" % (s.reason_unknown() if r == z3.unknown else "sat without definitions", tier))
         return last[0], time.time() - t0, last[1]
     except Exception as e:       # pragma: no cover
         return "error", time.time() - t0, repr(e)
